@@ -2,5 +2,5 @@
 EXTENDS SubjectTrace
 AnyScript == Seq([k : {"unsub", "mute", "unmute", "inval", "sub", "notify", "throw"}, t : 0..120])   \* only ever tested for membership
 NoOrder == <<>>
-AllOps == {"Subscribe", "SubscribeMuted", "UnsubF", "UnsubH", "UnsubS", "Mute", "Unmute", "Invalidate", "Swap", "Notify"}
+AllOps == {"Subscribe", "SubscribeMuted", "UnsubF", "UnsubH", "UnsubS", "Mute", "Unmute", "Invalidate", "Swap", "Drop", "Notify"}
 ====
